@@ -474,6 +474,107 @@ fn judge(d: &Def, unit: &Value, p: &bpaf::OptionParser<Val>, argv: &[Tok], ctx: 
     });
 }
 
+// ------------------------------------------------------------------------------------------
+// a choice between two `.adjacent()` commands beside a top-level switch: `[-v] (alpha [-x] | beta [-y])`
+// bare / optional / repeated.  A command owns the contiguous run of its own items behind its
+// name; what follows belongs to the enclosing level again.
+// ------------------------------------------------------------------------------------------
+fn adjchain_opts(w: usize) -> Opts {
+    let cmd = |name: &str, c: char| P::Cmd { name: name.into(), shorts: vec![], longs: vec![], inner: Box::new(Opts::new(P::Seq(vec![P::Switch(Names::short(c))]))), adjacent: true, help: None };
+    let choice = P::Alt(vec![P::Map(cmd("alpha", 'x').bx(), "A".into()), P::Map(cmd("beta", 'y').bx(), "B".into())]);
+    let cw = match w {
+        0 => choice,
+        1 => choice.opt(),
+        _ => choice.many(),
+    };
+    Opts::new(P::Seq(vec![P::Switch(Names::short('v')), cw]))
+}
+
+fn adjchain_model(w: usize, argv: &[Tok]) -> Option<Val> {
+    let mut v = 0;
+    let mut blocks = vec![];
+    let mut i = 0;
+    while i < argv.len() {
+        let t = argv[i].lossy();
+        match t.as_str() {
+            "-v" => {
+                v += 1;
+                i += 1;
+            }
+            "alpha" | "beta" => {
+                let (tag, own) = if t == "alpha" { ("A", "-x") } else { ("B", "-y") };
+                i += 1;
+                let mut flag = false;
+                if i < argv.len() && argv[i].lossy() == own {
+                    flag = true;
+                    i += 1;
+                }
+                blocks.push(Val::tag(tag, Val::Cmd(t.clone(), Box::new(Val::T(vec![Val::B(flag)])))));
+            }
+            _ => return None,
+        }
+    }
+    if v > 1 {
+        return None;
+    }
+    let c = match w {
+        0 => {
+            if blocks.len() != 1 {
+                return None;
+            }
+            blocks.pop().unwrap()
+        }
+        1 => match blocks.len() {
+            0 => Val::No,
+            1 => Val::some(blocks.pop().unwrap()),
+            _ => return None,
+        },
+        _ => Val::L(blocks),
+    };
+    Some(Val::T(vec![Val::B(v == 1), c]))
+}
+
+fn run_adjchain(w: usize, len: usize, unit: &Value, only: Option<&[Tok]>, ctx: &mut Ctx) {
+    let p = match build_checked(&adjchain_opts(w)) {
+        Ok(p) => p,
+        Err(_) => return,
+    };
+    let mut one = |argv: &[Tok], ctx: &mut Ctx| {
+        ctx.begin_case(|| json!({"argv": argv}));
+        ctx.s.evaluations += 1;
+        ctx.s.states += 1;
+        let m = adjchain_model(w, argv);
+        let r = run(&p, argv);
+        let ok = match (&m, &r) {
+            (Some(a), Outcome::Value(b)) => a == b,
+            (None, Outcome::Stderr(t)) => !t.trim().is_empty(),
+            _ => false,
+        };
+        if ok {
+            ctx.s.validated += 1;
+            if argv.iter().any(|t| t.0 == b"alpha" || t.0 == b"beta") {
+                ctx.s.nontrivial += 1;
+            }
+            ctx.count("adjacent-command-choice-judged");
+            return;
+        }
+        let mut sig = BTreeMap::new();
+        sig.insert("alts".to_string(), "[adjacent command alpha, adjacent command beta]".to_string());
+        sig.insert("wrap".to_string(), ["Bare", "Opt", "Many"][w].to_string());
+        sig.insert("model".to_string(), if m.is_some() { "accept" } else { "reject" }.to_string());
+        sig.insert("observed".to_string(), r.class().to_string());
+        ctx.violation(Violation { property: "C07".into(), rule: if m.is_some() { "exactly-one-alternative-yields-its-value" } else { "mixing-or-incomplete-alternatives-fails" }.into(), sig, unit: unit.clone(), case: json!({"argv": argv}), expected: format!("{:?}", m), observed: r.brief(), size: argv.len() * 1000 });
+    };
+    if let Some(a) = only {
+        one(a, ctx);
+        return;
+    }
+    tree(&toks(&["alpha", "beta", "-x", "-y", "-v", "w"]), len, &mut |argv| {
+        one(argv, ctx);
+        true
+    });
+}
+
 impl Check for C07 {
     fn id(&self) -> &'static str {
         "C07"
@@ -539,9 +640,38 @@ impl Check for C07 {
             d
         }).collect();
         out.append(&mut via_fn);
-        out.into_iter().map(|d| serde_json::to_value(d).unwrap()).collect()
+        let mut out: Vec<Value> = out.into_iter().map(|d| serde_json::to_value(d).unwrap()).collect();
+        // a choice between two different adjacent groups (C19's block scanner), bare / optional /
+        // repeated, beside a switch declared before or after it
+        for w in 0..3 {
+            out.push(json!({"adjchain": w, "len": tier.pick(5, 6)}));
+        }
+        for w in [crate::checks::c19::W::Bare, crate::checks::c19::W::Opt, crate::checks::c19::W::Many] {
+            for v in [crate::checks::c19::V::Absent, crate::checks::c19::V::Before, crate::checks::c19::V::After] {
+                out.push(json!({"twokinds": crate::checks::c19::Def { g: crate::checks::c19::G::TwoKinds, w, t: crate::checks::c19::T::None, v, len: tier.pick(5, 6) }}));
+            }
+        }
+        out
     }
     fn run_unit(&self, unit: &Value, ctx: &mut Ctx) {
+        if let Some(w) = unit.get("adjchain").and_then(|w| w.as_u64()) {
+            run_adjchain(w as usize, unit["len"].as_u64().unwrap_or(5) as usize, unit, None, ctx);
+            return;
+        }
+        if let Some(t) = unit.get("twokinds") {
+            let d: crate::checks::c19::Def = serde_json::from_value(t.clone()).unwrap();
+            if let Ok(p) = build_checked(&crate::checks::c19::to_opts(&d)) {
+                let alpha = crate::checks::c19::alphabet_for(d.g);
+                tree(&alpha, d.len, &mut |argv| {
+                    ctx.begin_case(|| json!({"argv": argv}));
+                    ctx.s.evaluations += 1;
+                    ctx.s.states += 1;
+                    crate::checks::c19::judge_as("C07", &d, unit, &p, argv, ctx);
+                    true
+                });
+            }
+            return;
+        }
         let d: Def = serde_json::from_value(unit.clone()).unwrap();
         let p = match build_checked(&to_opts(&d)) {
             Ok(p) => p,
@@ -560,6 +690,20 @@ impl Check for C07 {
         });
     }
     fn replay(&self, unit: &Value, case: &Value, ctx: &mut Ctx) {
+        if let Some(w) = unit.get("adjchain").and_then(|w| w.as_u64()) {
+            let argv: Vec<Tok> = serde_json::from_value(case["argv"].clone()).unwrap_or_default();
+            run_adjchain(w as usize, 0, unit, Some(&argv), ctx);
+            return;
+        }
+        if let Some(t) = unit.get("twokinds") {
+            let d: crate::checks::c19::Def = serde_json::from_value(t.clone()).unwrap();
+            let argv: Vec<Tok> = serde_json::from_value(case["argv"].clone()).unwrap_or_default();
+            if let Ok(p) = build_checked(&crate::checks::c19::to_opts(&d)) {
+                ctx.s.evaluations += 1;
+                crate::checks::c19::judge_as("C07", &d, unit, &p, &argv, ctx);
+            }
+            return;
+        }
         let d: Def = serde_json::from_value(unit.clone()).unwrap();
         let argv: Vec<Tok> = serde_json::from_value(case["argv"].clone()).unwrap_or_default();
         if let Ok(p) = build_checked(&to_opts(&d)) {
